@@ -10,6 +10,15 @@ use std::collections::{BTreeMap, BTreeSet};
 
 /// custom messages of failing value checks below a record node
 fn failing_messages(n: &J, out: &mut BTreeSet<String>) {
+    failing_messages_x(n, out, false, true)
+}
+
+/// `own_only`: stop at nested RuleCheck nodes (referenced rules and parameterised calls are listed
+/// under their caller as one check, their own checks need not be repeated there)
+fn failing_messages_x(n: &J, out: &mut BTreeSet<String>, own_only: bool, top: bool) {
+    if own_only && !top && n["container"].get("RuleCheck").is_some() {
+        return;
+    }
     // only what lies on a path of FAIL nodes below the rule can be a cause of the rule's failure:
     // nothing is collected below a clause, block, disjunction, condition or filter that did not FAIL
     if !n["container"].get("ClauseValueCheck").is_some() {
@@ -46,7 +55,7 @@ fn failing_messages(n: &J, out: &mut BTreeSet<String>) {
     }
     if let Some(ch) = n["children"].as_array() {
         for c in ch {
-            failing_messages(c, out);
+            failing_messages_x(c, out, own_only, false);
         }
     }
 }
@@ -74,6 +83,8 @@ fn collect_custom_messages(j: &J, out: &mut Vec<String>) {
 pub struct Truth {
     pub statuses: Vec<(String, St)>,
     pub fail_msgs: BTreeMap<String, BTreeSet<String>>,
+    /// the rule's own failing clauses only (nothing from referenced / called rules)
+    pub own_fail_msgs: BTreeMap<String, BTreeSet<String>>,
 }
 
 pub fn truth_of(doc: &str, rules: &str) -> Result<Option<Truth>, String> {
@@ -81,15 +92,17 @@ pub fn truth_of(doc: &str, rules: &str) -> Result<Option<Truth>, String> {
     match (v, rec) {
         (Verdict::Ok { rules: rs, .. }, Some(rec)) => {
             let mut fm: BTreeMap<String, BTreeSet<String>> = BTreeMap::new();
+            let mut own: BTreeMap<String, BTreeSet<String>> = BTreeMap::new();
             for ch in rec["children"].as_array().cloned().unwrap_or_default() {
                 if let Some(name) = ch["container"]["RuleCheck"]["name"].as_str() {
                     let e = fm.entry(name.to_string()).or_default();
                     failing_messages(&ch, e);
+                    failing_messages_x(&ch, own.entry(name.to_string()).or_default(), true, true);
                 }
             }
-            Ok(Some(Truth { statuses: rs, fail_msgs: fm }))
+            Ok(Some(Truth { statuses: rs, fail_msgs: fm, own_fail_msgs: own }))
         }
-        (Verdict::Ok { rules: rs, .. }, None) => Ok(Some(Truth { statuses: rs, fail_msgs: BTreeMap::new() })),
+        (Verdict::Ok { rules: rs, .. }, None) => Ok(Some(Truth { statuses: rs, fail_msgs: BTreeMap::new(), own_fail_msgs: BTreeMap::new() })),
         (Verdict::EvalErr(_), _) => Ok(None),
         (Verdict::ParseErr(e), _) => Err(format!("generator-invalid: {}", e)),
         (Verdict::Panic(p), _) => Err(format!("panic {}", p)),
@@ -98,6 +111,12 @@ pub fn truth_of(doc: &str, rules: &str) -> Result<Option<Truth>, String> {
 
 /// Check one structured report object against the ground truth (union over rules files).
 pub fn check_report(report: &J, truths: &[&Truth]) -> Result<(usize, usize), String> {
+    check_report_m(report, truths, false)
+}
+
+/// `every_clause_has_a_message`: the program was generated with a custom message on every clause,
+/// so a listed value check without one has lost it
+pub fn check_report_m(report: &J, truths: &[&Truth], every_clause_has_a_message: bool) -> Result<(usize, usize), String> {
     let names = |k: &str| -> Result<Vec<String>, String> {
         report[k].as_array().ok_or_else(|| format!("report has no array '{}'", k)).map(|a| a.iter().filter_map(|x| x.as_str().map(|s| s.to_string())).collect())
     };
@@ -112,11 +131,13 @@ pub fn check_report(report: &J, truths: &[&Truth]) -> Result<(usize, usize), Str
         let mut msgs = vec![];
         collect_custom_messages(&r["checks"], &mut msgs);
         nc_msgs.entry(n.clone()).or_default().extend(msgs);
+
         nc.push(n);
     }
     let strip = |n: &String| n.rsplit('/').next().unwrap_or(n).to_string();
     let (mut pass, mut fail, mut skip) = (BTreeSet::new(), BTreeSet::new(), BTreeSet::new());
     let mut fm: BTreeMap<String, BTreeSet<String>> = BTreeMap::new();
+    let mut own: BTreeMap<String, BTreeSet<String>> = BTreeMap::new();
     for t in truths {
         for (n, s) in &t.statuses {
             match s {
@@ -127,6 +148,9 @@ pub fn check_report(report: &J, truths: &[&Truth]) -> Result<(usize, usize), Str
         }
         for (n, m) in &t.fail_msgs {
             fm.entry(strip(n)).or_default().extend(m.iter().cloned());
+        }
+        for (n, m) in &t.own_fail_msgs {
+            own.entry(strip(n)).or_default().extend(m.iter().cloned());
         }
     }
     let set = |v: &Vec<String>| v.iter().map(strip).collect::<BTreeSet<String>>();
@@ -162,6 +186,18 @@ pub fn check_report(report: &J, truths: &[&Truth]) -> Result<(usize, usize), Str
             nmsgs += 1;
             if !allowed.contains(m) {
                 return Err(format!("rule {} lists a check with message <<{}>> but no check with that message failed under it (failed there: {:?})", n, m, allowed));
+            }
+        }
+    }
+    // and the other way round: a message whose clause failed on a path of FAIL nodes below the rule
+    // is carried by a listed check (a check that lost its clause's message shows here)
+    if every_clause_has_a_message {
+        for n in &f {
+            let listed: BTreeSet<String> = nc_msgs.iter().filter(|(k, _)| strip(k) == *n).flat_map(|(_, v)| v.iter().cloned()).collect();
+            for m in own.get(n).cloned().unwrap_or_default() {
+                if !listed.contains(&m) {
+                    return Err(format!("a check with the message <<{}>> failed under rule {} but no listed check carries that message (listed: {:?})", m, n, listed));
+                }
             }
         }
     }
@@ -201,7 +237,7 @@ fn check_case(doc: &str, files: &[String], names: Option<&BTreeSet<String>>, eva
     if reports.len() != 1 {
         return Err((format!("{} reports for one data file", reports.len()), "c09:shape".into()));
     }
-    let (nf, nm) = check_report(&reports[0], &tr).map_err(|e| (format!("validate --structured: {}", e), "c09:partition".to_string()))?;
+    let (nf, nm) = check_report_m(&reports[0], &tr, names.is_some()).map_err(|e| (format!("validate --structured: {}", e), "c09:partition".to_string()))?;
     let any_fail = truths.iter().any(|t| t.statuses.iter().any(|(_, s)| *s == St::Fail));
     if r.code != Ok(if any_fail { 19 } else { 0 }) {
         return Err((format!("exit code {:?} with any_fail={}", r.code, any_fail), "c09:exit-code".into()));
@@ -292,7 +328,7 @@ fn random_case(u: &mut Choices, sz: Size) -> CaseResult {
 
 pub fn run(tier: Tier, seed: u64) -> i32 {
     let spec = EvidenceSpec {
-        rule: "Random wide programs (type blocks, parameterised rules, nested blocks, rule references) with globally distinct rule names and a unique custom message on every clause / call, 1-3 rules files per run, on CloudFormation-shaped documents. Ground truth = top-level RuleCheck statuses and the custom messages of failing value checks per rule in the verbose record of each (rules file, document) pair. Checked: `validate --structured -o json` (payload, all rules files at once) and run_checks(verbose=false) per file: compliant / not_applicable / not_compliant are exactly the PASS / SKIP / FAIL rules, pairwise disjoint, each once; file status follows from the partition; exit code; every listed check's message belongs to a check that failed under that rule; the multi-file report is the concatenation of the single-file reports. Non-trivial: at least one FAIL rule and one rule of another status; distinct by hash of the texts.".into(),
+        rule: "Random wide programs (type blocks, parameterised rules, nested blocks, rule references) with globally distinct rule names and a unique custom message on every clause / call, 1-3 rules files per run, on CloudFormation-shaped documents. Ground truth = top-level RuleCheck statuses and the custom messages of failing value checks per rule in the verbose record of each (rules file, document) pair. Checked: `validate --structured -o json` (payload, all rules files at once) and run_checks(verbose=false) per file: compliant / not_applicable / not_compliant are exactly the PASS / SKIP / FAIL rules, pairwise disjoint, each once; file status follows from the partition; exit code; every listed check's message belongs to a check that failed under that rule on a path of FAIL nodes, and every message whose clause failed on such a path is carried by a listed check; the multi-file report is the concatenation of the single-file reports. Non-trivial: at least one FAIL rule and one rule of another status; distinct by hash of the texts.".into(),
         assumptions: vec!["rule statuses are taken from the verbose record of the same evaluation (C01/C02 judge them)".into()],
     };
     execute("C09", tier, seed, spec, &replay, &|run: &Session| {
